@@ -1,12 +1,1151 @@
-//! Extension module (Tier A): owner fills in. Output: coq/gen/MatchesFns.v
+//! Extension module (Tier A, C18). Output: coq/gen/MatchesFns.v
 //! Contract: return (text of the .v file, report lines). Each report line is one JSON object
 //! {"item":"MatchesFns.<name>","file":"<rust file>","ok":true|false[,"error":"..."]}.
 //! Fail closed: when a site is not recognised, OMIT the Gallina definition (so dependent proofs stop
 //! compiling) and push an ok:false report line.
+//!
+//! Part 1 (function level): the methods of `impl Matches` of src/scheduler.rs (`new`, `match_size`,
+//! `tuple_len`, `get_match`, `choose`, `choose_all`, `instantiate`) are translated statement by
+//! statement into Gallina over `Res` (Base/Res.v) with the std operations of Sched/MatchesPrelude.v.
+//!   * a value of type `Matches` is the tuple of its fields in declaration order; inside a method
+//!     the field `self.f` is the variable `self_f` (every method takes ALL fields);
+//!   * `Vec<Value>` / `Vec<ResolvedVar>` -> `list N`, `Vec<usize>` -> `list nat`, `usize` -> `nat`;
+//!   * `a - b`, `x -= e` -> `usub` (Panic on underflow), `a / b` -> `udiv`, `v[a..b]` -> `slice`,
+//!     `v[i]` -> `idx`, `v.swap(i, j)` -> `vswap`, `v.chunks(w)` -> `chunks`, `assert!(c)` -> Panic
+//!     unless c; `+`, `*` unbounded;
+//!   * mutation is shadowing; `for x in it { body }` becomes a structural `Fixpoint <fn>_loop<k>`
+//!     over the iterated list, threading exactly the variables the body mutates;
+//!   * `table_action.insert(state, row)` appends `row` to the effect log `ins` (the rows inserted into
+//!     the `decided` table, in order); a function with a `table_action` parameter returns
+//!     `(ins, value)`; `state.base_values().get(())` is the parameter `base_unit`.
+//! Anything outside this subset (break / continue / return, closures, unknown calls, shadowing `let`)
+//! is an error for that method.
+//!
+//! Part 2 (expression-level facts about `step_rules_with_scheduler`): see `facts()`.
+use std::collections::HashMap;
+use syn::{spanned::Spanned, BinOp, Expr, FnArg, ImplItem, Item as SynItem, Lit, Pat, Stmt, Type, UnOp};
 
-pub fn generate(_repo: &std::path::Path) -> (String, Vec<String>) {
-    (
-        "(* GENERATED by /verif/translator (x_matches.rs): nothing extracted yet *)\n".to_string(),
-        Vec::new(),
-    )
+type R<T> = Result<T, String>;
+type Scope = Vec<(String, String)>;
+
+const FILE: &str = "src/scheduler.rs";
+const METHODS: &[&str] = &["new", "match_size", "tuple_len", "get_match", "choose", "choose_all", "instantiate"];
+
+fn err<T, S: Spanned>(s: &S, msg: &str) -> R<T> {
+    Err(format!("line {}: {}", s.span().start().line, msg))
+}
+
+fn coq_name(s: &str) -> String {
+    match s {
+        "unit" => "unit_v".into(),
+        "fuel" | "bind" | "fun" | "end" | "in" | "let" | "match" | "with" | "if" | "then" | "else" | "as" | "at"
+        | "return" | "fix" | "forall" | "exists" | "Type" | "Prop" | "Set"
+        | "idx" | "upd" | "slice" | "chunks" | "rev" | "length" | "firstn" => format!("{s}_v"),
+        _ => s.to_string(),
+    }
+}
+
+/// source names that could collide with generated ones are rejected
+fn check_name(name: &str) -> R<()> {
+    if name == "ins" || name == "base_unit" || name.ends_with('_') || name.ends_with("_v") || name.starts_with("self_") {
+        return Err(format!("variable name {name} may collide with a generated name"));
+    }
+    Ok(())
+}
+
+fn path_last(p: &syn::Path) -> String {
+    p.segments.last().map(|s| s.ident.to_string()).unwrap_or_default()
+}
+
+fn type_last(t: &Type) -> Option<&syn::PathSegment> {
+    match t {
+        Type::Path(p) if p.qself.is_none() => p.path.segments.last(),
+        Type::Reference(r) => type_last(&r.elem),
+        _ => None,
+    }
+}
+
+/// Rust type -> Coq type
+fn coq_type(t: &Type) -> R<String> {
+    let seg = match type_last(t) {
+        Some(s) => s,
+        None => return err(t, "unsupported type"),
+    };
+    let name = seg.ident.to_string();
+    match name.as_str() {
+        "usize" => Ok("nat".into()),
+        "bool" => Ok("bool".into()),
+        "Value" | "ResolvedVar" => Ok("N".into()),
+        "Vec" => {
+            if let syn::PathArguments::AngleBracketed(a) = &seg.arguments {
+                if let Some(syn::GenericArgument::Type(inner)) = a.args.first() {
+                    return Ok(format!("list {}", paren_ty(&coq_type(inner)?)));
+                }
+            }
+            err(t, "unsupported Vec type")
+        }
+        _ => err(t, &format!("unsupported type {name}")),
+    }
+}
+
+fn paren_ty(t: &str) -> String {
+    if t.contains(' ') {
+        format!("({t})")
+    } else {
+        t.to_string()
+    }
+}
+
+fn elem_ty(t: &str) -> Option<String> {
+    let rest = t.strip_prefix("list ")?;
+    let rest = rest.trim();
+    if rest.starts_with('(') && rest.ends_with(')') {
+        Some(rest[1..rest.len() - 1].to_string())
+    } else {
+        Some(rest.to_string())
+    }
+}
+
+fn lookup(scope: &Scope, name: &str) -> Option<String> {
+    scope.iter().rev().find(|(n, _)| n == name).map(|(_, t)| t.clone())
+}
+
+fn wrap(prefix: Vec<(String, String)>, body: String) -> String {
+    prefix.into_iter().rev().fold(body, |acc, (n, e)| format!("bind ({e}) (fun {n} =>\n{acc})"))
+}
+
+enum K {
+    /// end of the function body: the value of the block is the result
+    Ret,
+    /// statement position: continue with this Gallina expression
+    Tail(String),
+}
+
+struct Gen<'a> {
+    fname: String,
+    structs: &'a HashMap<String, Vec<(String, String)>>,
+    /// fields of `Matches` as (self_<f>, type)
+    fields: Scope,
+    /// already translated methods (all take the fields first)
+    methods: &'a HashMap<String, Vec<String>>,
+    aux: Vec<String>,
+    tmp: usize,
+    loops: usize,
+    has_ins: bool,
+    has_state: bool,
+    /// `&mut self` method: the result is the tuple of the fields
+    returns_self: bool,
+}
+
+/// names assigned / mutated in a block (candidates; filtered by the scope afterwards)
+fn mutated(block: &syn::Block) -> Vec<String> {
+    struct V(Vec<String>);
+    fn place(e: &Expr) -> Option<String> {
+        match e {
+            Expr::Path(p) => p.path.get_ident().map(|i| i.to_string()),
+            Expr::Field(f) => match (&*f.base, &f.member) {
+                (Expr::Path(p), syn::Member::Named(m)) if p.path.is_ident("self") => Some(format!("self_{m}")),
+                _ => None,
+            },
+            Expr::Paren(p) => place(&p.expr),
+            _ => None,
+        }
+    }
+    impl<'ast> syn::visit::Visit<'ast> for V {
+        fn visit_expr_binary(&mut self, b: &'ast syn::ExprBinary) {
+            if matches!(b.op, BinOp::AddAssign(_) | BinOp::SubAssign(_) | BinOp::MulAssign(_) | BinOp::DivAssign(_)) {
+                if let Some(n) = place(&b.left) {
+                    self.0.push(n);
+                }
+            }
+            syn::visit::visit_expr_binary(self, b);
+        }
+        fn visit_expr_assign(&mut self, a: &'ast syn::ExprAssign) {
+            if let Some(n) = place(&a.left) {
+                self.0.push(n);
+            }
+            syn::visit::visit_expr_assign(self, a);
+        }
+        fn visit_expr_method_call(&mut self, m: &'ast syn::ExprMethodCall) {
+            let name = m.method.to_string();
+            if let Some(n) = place(&m.receiver) {
+                if n == "table_action" && name == "insert" {
+                    self.0.push("ins".into());
+                } else if ["swap", "sort_unstable", "dedup", "truncate", "push"].contains(&name.as_str()) {
+                    self.0.push(n);
+                }
+            }
+            syn::visit::visit_expr_method_call(self, m);
+        }
+    }
+    let mut v = V(Vec::new());
+    syn::visit::Visit::visit_block(&mut v, block);
+    v.0
+}
+
+fn has_jumps(block: &syn::Block) -> bool {
+    struct V(bool);
+    impl<'ast> syn::visit::Visit<'ast> for V {
+        fn visit_expr(&mut self, e: &'ast Expr) {
+            if matches!(e, Expr::Return(_) | Expr::Break(_) | Expr::Continue(_) | Expr::Closure(_) | Expr::Try(_) | Expr::While(_) | Expr::Loop(_)) {
+                self.0 = true;
+            }
+            syn::visit::visit_expr(self, e);
+        }
+    }
+    let mut v = V(false);
+    syn::visit::Visit::visit_block(&mut v, block);
+    v.0
+}
+
+impl<'a> Gen<'a> {
+    fn fresh(&mut self) -> String {
+        self.tmp += 1;
+        format!("t{}_", self.tmp)
+    }
+
+    /// the variable a place expression denotes (`x` or `self.f`)
+    fn place(&self, e: &Expr, scope: &Scope) -> R<(String, String)> {
+        let name = match e {
+            Expr::Path(p) if p.path.get_ident().is_some() => {
+                let id = p.path.get_ident().unwrap().to_string();
+                id
+            }
+            Expr::Field(f) => match (&*f.base, &f.member) {
+                (Expr::Path(p), syn::Member::Named(m)) if p.path.is_ident("self") => format!("self_{m}"),
+                _ => return err(e, "unsupported place expression"),
+            },
+            Expr::Paren(p) => return self.place(&p.expr, scope),
+            _ => return err(e, "unsupported place expression"),
+        };
+        match lookup(scope, &name) {
+            Some(t) => Ok((name, t)),
+            None => err(e, &format!("unknown variable {name}")),
+        }
+    }
+
+    /// (effectful bindings to run first, Gallina atom, Coq type)
+    fn value(&mut self, e: &Expr, scope: &Scope) -> R<(Vec<(String, String)>, String, String)> {
+        match e {
+            Expr::Paren(p) => self.value(&p.expr, scope),
+            Expr::Group(p) => self.value(&p.expr, scope),
+            Expr::Reference(r) if r.mutability.is_none() => self.value(&r.expr, scope),
+            Expr::Unary(u) if matches!(u.op, UnOp::Deref(_)) => self.value(&u.expr, scope),
+            Expr::Unary(u) if matches!(u.op, UnOp::Not(_)) => {
+                let (b, a, t) = self.value(&u.expr, scope)?;
+                if t != "bool" {
+                    return err(e, "`!` on a non-bool");
+                }
+                Ok((b, format!("(negb {a})"), t))
+            }
+            Expr::Lit(l) => match &l.lit {
+                Lit::Int(i) => {
+                    if !(i.suffix().is_empty() || i.suffix() == "usize") {
+                        return err(e, "integer literal of a non-usize type");
+                    }
+                    Ok((vec![], i.base10_digits().to_string(), "nat".into()))
+                }
+                Lit::Bool(b) => Ok((vec![], if b.value { "true".into() } else { "false".into() }, "bool".into())),
+                _ => err(e, "unsupported literal"),
+            },
+            Expr::Path(_) | Expr::Field(_) => {
+                let (n, t) = self.place(e, scope)?;
+                Ok((vec![], coq_name(&n), t))
+            }
+            Expr::Binary(b) => {
+                let (mut pre, l, lt) = self.value(&b.left, scope)?;
+                let (pre2, r, rt) = self.value(&b.right, scope)?;
+                pre.extend(pre2);
+                if lt != rt {
+                    return err(e, &format!("operands of different types {lt} / {rt}"));
+                }
+                let nat = lt == "nat";
+                let pure = |s: String, t: &str| -> R<(Vec<(String, String)>, String, String)> { Ok((Vec::new(), s, t.to_string())) };
+                let (p2, a, t) = match &b.op {
+                    BinOp::Add(_) if nat => pure(format!("({l} + {r})"), "nat")?,
+                    BinOp::Mul(_) if nat => pure(format!("({l} * {r})"), "nat")?,
+                    BinOp::Sub(_) if nat => {
+                        let t = self.fresh();
+                        (vec![(t.clone(), format!("usub {l} {r}"))], t, "nat".to_string())
+                    }
+                    BinOp::Div(_) if nat => {
+                        let t = self.fresh();
+                        (vec![(t.clone(), format!("udiv {l} {r}"))], t, "nat".to_string())
+                    }
+                    BinOp::Eq(_) if nat => pure(format!("(Nat.eqb {l} {r})"), "bool")?,
+                    BinOp::Ne(_) if nat => pure(format!("(negb (Nat.eqb {l} {r}))"), "bool")?,
+                    BinOp::Lt(_) if nat => pure(format!("(Nat.ltb {l} {r})"), "bool")?,
+                    BinOp::Le(_) if nat => pure(format!("(Nat.leb {l} {r})"), "bool")?,
+                    BinOp::Gt(_) if nat => pure(format!("(Nat.ltb {r} {l})"), "bool")?,
+                    BinOp::Ge(_) if nat => pure(format!("(Nat.leb {r} {l})"), "bool")?,
+                    _ => return err(e, "unsupported binary operator"),
+                };
+                pre.extend(p2);
+                Ok((pre, a, t))
+            }
+            Expr::Index(ix) => {
+                let (mut pre, v, vt) = self.value(&ix.expr, scope)?;
+                if elem_ty(&vt).is_none() {
+                    return err(e, "indexing a non-list");
+                }
+                match &*ix.index {
+                    Expr::Range(r) => {
+                        if !matches!(r.limits, syn::RangeLimits::HalfOpen(_)) {
+                            return err(e, "unsupported range");
+                        }
+                        let lo = match &r.start {
+                            Some(s) => {
+                                let (p, a, t) = self.value(s, scope)?;
+                                if t != "nat" {
+                                    return err(e, "range bound is not a usize");
+                                }
+                                pre.extend(p);
+                                a
+                            }
+                            None => "0".to_string(),
+                        };
+                        let hi = match &r.end {
+                            Some(s) => {
+                                let (p, a, t) = self.value(s, scope)?;
+                                if t != "nat" {
+                                    return err(e, "range bound is not a usize");
+                                }
+                                pre.extend(p);
+                                a
+                            }
+                            None => format!("(length {v})"),
+                        };
+                        let t = self.fresh();
+                        pre.push((t.clone(), format!("slice {v} {lo} {hi}")));
+                        Ok((pre, t, vt))
+                    }
+                    i => {
+                        let (p, a, t) = self.value(i, scope)?;
+                        if t != "nat" {
+                            return err(e, "index is not a usize");
+                        }
+                        pre.extend(p);
+                        let tv = self.fresh();
+                        pre.push((tv.clone(), format!("idx {v} {a}")));
+                        Ok((pre, tv, elem_ty(&vt).unwrap()))
+                    }
+                }
+            }
+            Expr::Range(r) => {
+                if !matches!(r.limits, syn::RangeLimits::HalfOpen(_)) || r.start.is_none() || r.end.is_none() {
+                    return err(e, "unsupported range");
+                }
+                let (mut pre, lo, t1) = self.value(r.start.as_ref().unwrap(), scope)?;
+                let (p2, hi, t2) = self.value(r.end.as_ref().unwrap(), scope)?;
+                pre.extend(p2);
+                if t1 != "nat" || t2 != "nat" {
+                    return err(e, "range over a non-usize");
+                }
+                Ok((pre, format!("(range_excl {lo} {hi})"), "list nat".into()))
+            }
+            Expr::Macro(m) if m.mac.path.is_ident("vec") && m.mac.tokens.is_empty() => {
+                Ok((vec![], "[]".into(), "list _".into()))
+            }
+            Expr::Call(c) => {
+                let f = match &*c.func {
+                    Expr::Path(p) => p.path.segments.iter().map(|s| s.ident.to_string()).collect::<Vec<_>>().join("::"),
+                    _ => return err(e, "unsupported call"),
+                };
+                if (f == "std::iter::once" || f == "iter::once") && c.args.len() == 1 {
+                    let (pre, a, t) = self.value(&c.args[0], scope)?;
+                    Ok((pre, format!("[{a}]"), format!("list {}", paren_ty(&t))))
+                } else if f == "Vec::new" && c.args.is_empty() {
+                    Ok((vec![], "[]".into(), "list _".into()))
+                } else {
+                    err(e, &format!("unsupported call {f}"))
+                }
+            }
+            Expr::Struct(s) => {
+                let mut name = path_last(&s.path);
+                if name == "Self" {
+                    name = "Matches".into();
+                }
+                if s.rest.is_some() {
+                    return err(e, "struct update syntax");
+                }
+                let decl = match self.structs.get(&name) {
+                    Some(d) => d.clone(),
+                    None => return err(e, &format!("unknown struct {name}")),
+                };
+                if decl.len() != s.fields.len() {
+                    return err(e, "struct literal does not list every field once");
+                }
+                let mut pre = Vec::new();
+                let mut parts = Vec::new();
+                let mut tys = Vec::new();
+                for (fname, fty) in decl.iter() {
+                    let fv = s.fields.iter().find(|fv| matches!(&fv.member, syn::Member::Named(m) if m == fname));
+                    let fv = match fv {
+                        Some(f) => f,
+                        None => return err(e, &format!("field {fname} missing in the struct literal")),
+                    };
+                    let (p, a, t) = self.value(&fv.expr, scope)?;
+                    pre.extend(p);
+                    if t == "list _" && elem_ty(fty).is_some() {
+                        parts.push(format!("({a} : {fty})"));
+                        tys.push(fty.clone());
+                    } else if &t == fty {
+                        parts.push(a);
+                        tys.push(t);
+                    } else {
+                        return err(e, &format!("field {fname} : {fty} initialised with a {t}"));
+                    }
+                }
+                Ok((pre, format!("({})", parts.join(", ")), format!("({})", tys.join(" * "))))
+            }
+            Expr::MethodCall(m) => {
+                let name = m.method.to_string();
+                // state.base_values().get(())
+                if name == "get" && m.args.len() == 1 {
+                    if let (Expr::MethodCall(inner), Expr::Tuple(tu)) = (&*m.receiver, &m.args[0]) {
+                        if inner.method == "base_values"
+                            && inner.args.is_empty()
+                            && tu.elems.is_empty()
+                            && matches!(&*inner.receiver, Expr::Path(p) if p.path.is_ident("state"))
+                            && self.has_state
+                        {
+                            return Ok((vec![], "base_unit".into(), "N".into()));
+                        }
+                    }
+                }
+                // self.method()
+                if matches!(&*m.receiver, Expr::Path(p) if p.path.is_ident("self")) {
+                    let params = match self.methods.get(&name) {
+                        Some(p) => p.clone(),
+                        None => return err(e, &format!("call of an untranslated method {name}")),
+                    };
+                    if params.len() != m.args.len() {
+                        return err(e, "wrong number of arguments");
+                    }
+                    let mut pre = Vec::new();
+                    let mut call = name.clone();
+                    for (f, _) in self.fields.iter() {
+                        if lookup(scope, f).is_none() {
+                            return err(e, "field not in scope");
+                        }
+                        call.push(' ');
+                        call.push_str(f);
+                    }
+                    for (a, pt) in m.args.iter().zip(params.iter()) {
+                        let (p, v, t) = self.value(a, scope)?;
+                        if &t != pt {
+                            return err(e, "argument type mismatch");
+                        }
+                        pre.extend(p);
+                        call.push(' ');
+                        call.push_str(&v);
+                    }
+                    let t = self.fresh();
+                    pre.push((t.clone(), call));
+                    let rt = match name.as_str() {
+                        "match_size" | "tuple_len" => "nat",
+                        _ => return err(e, &format!("self.{name}() is not usable as a value")),
+                    };
+                    return Ok((pre, t, rt.to_string()));
+                }
+                let (mut pre, r, rt) = self.value(&m.receiver, scope)?;
+                let is_list = elem_ty(&rt).is_some();
+                let mut args = Vec::new();
+                for a in m.args.iter() {
+                    let (p, v, t) = self.value(a, scope)?;
+                    pre.extend(p);
+                    args.push((v, t));
+                }
+                match (name.as_str(), args.len()) {
+                    ("len", 0) if is_list => Ok((pre, format!("(length {r})"), "nat".into())),
+                    ("iter", 0) | ("cloned", 0) | ("copied", 0) | ("into_iter", 0) | ("clone", 0) if is_list => Ok((pre, r, rt)),
+                    ("rev", 0) if is_list => Ok((pre, format!("(rev {r})"), rt)),
+                    ("chain", 1) if is_list && args[0].1 == rt => Ok((pre, format!("({r} ++ {})", args[0].0), rt)),
+                    ("chunks", 1) if is_list && args[0].1 == "nat" => {
+                        let t = self.fresh();
+                        pre.push((t.clone(), format!("chunks {r} {}", args[0].0)));
+                        Ok((pre, t, format!("list ({rt})")))
+                    }
+                    ("max", 1) if rt == "nat" && args[0].1 == "nat" => Ok((pre, format!("(Nat.max {r} {})", args[0].0), rt)),
+                    ("min", 1) if rt == "nat" && args[0].1 == "nat" => Ok((pre, format!("(Nat.min {r} {})", args[0].0), rt)),
+                    ("is_multiple_of", 1) if rt == "nat" && args[0].1 == "nat" => {
+                        Ok((pre, format!("(is_multiple_of {r} {})", args[0].0), "bool".into()))
+                    }
+                    _ => err(e, &format!("unsupported method {name} on {rt}")),
+                }
+            }
+            _ => err(e, "unsupported expression"),
+        }
+    }
+
+    fn ret_value(&self, v: &str) -> String {
+        if self.has_ins {
+            format!("Ok (ins, {v})")
+        } else {
+            format!("Ok {v}")
+        }
+    }
+
+    fn end_of_block(&mut self, scope: &Scope, k: &K) -> R<String> {
+        match k {
+            K::Tail(s) => Ok(s.clone()),
+            K::Ret => {
+                if self.returns_self {
+                    let fs: Vec<String> = self.fields.iter().map(|(f, _)| f.clone()).collect();
+                    for f in fs.iter() {
+                        if lookup(scope, f).is_none() {
+                            return Err("field not in scope".into());
+                        }
+                    }
+                    Ok(self.ret_value(&format!("({})", fs.join(", "))))
+                } else {
+                    Err("function body without a value".into())
+                }
+            }
+        }
+    }
+
+    fn block(&mut self, b: &syn::Block, scope: &Scope, k: &K) -> R<String> {
+        self.stmts(&b.stmts, scope.clone(), k)
+    }
+
+    fn stmts(&mut self, stmts: &[Stmt], mut scope: Scope, k: &K) -> R<String> {
+        let (first, rest) = match stmts.split_first() {
+            Some(x) => x,
+            None => return self.end_of_block(&scope, k),
+        };
+        match first {
+            Stmt::Local(l) => {
+                let name = match &l.pat {
+                    Pat::Ident(pi) if pi.by_ref.is_none() && pi.subpat.is_none() => pi.ident.to_string(),
+                    _ => return err(l, "unsupported let pattern"),
+                };
+                check_name(&name)?;
+                if lookup(&scope, &name).is_some() {
+                    return err(l, &format!("let {name} shadows a name in scope"));
+                }
+                let init = match &l.init {
+                    Some(i) if i.diverge.is_none() => &i.expr,
+                    _ => return err(l, "let without initialiser / let-else"),
+                };
+                let (pre, a, t) = self.value(init, &scope)?;
+                scope.push((name.clone(), t));
+                let rest_s = self.stmts(rest, scope, k)?;
+                Ok(wrap(pre, format!("let {} := {a} in\n{rest_s}", coq_name(&name))))
+            }
+            Stmt::Expr(e, semi) => {
+                if semi.is_none() && rest.is_empty() {
+                    if let K::Ret = k {
+                        if !self.returns_self {
+                            return self.tail_expr(e, &scope);
+                        }
+                    }
+                }
+                self.stmt_expr(e, rest, scope, k)
+            }
+            Stmt::Macro(m) => {
+                if m.mac.path.is_ident("assert") {
+                    let cond: Expr = syn::parse2(m.mac.tokens.clone()).map_err(|_| format!("line {}: unsupported assert!", m.span().start().line))?;
+                    let (pre, c, t) = self.value(&cond, &scope)?;
+                    if t != "bool" {
+                        return err(m, "assert! of a non-bool");
+                    }
+                    let rest_s = self.stmts(rest, scope, k)?;
+                    Ok(wrap(pre, format!("if {c} then\n{rest_s}\nelse Panic")))
+                } else {
+                    err(m, "unsupported macro statement")
+                }
+            }
+            _ => err(first, "unsupported statement"),
+        }
+    }
+
+    /// expression in tail position of the function body
+    fn tail_expr(&mut self, e: &Expr, scope: &Scope) -> R<String> {
+        match e {
+            Expr::If(i) => {
+                let (pre, c, t) = self.value(&i.cond, scope)?;
+                if t != "bool" {
+                    return err(e, "condition is not a bool");
+                }
+                let th = self.block(&i.then_branch, scope, &K::Ret)?;
+                let el = match &i.else_branch {
+                    Some((_, eb)) => match &**eb {
+                        Expr::Block(b) => self.block(&b.block, scope, &K::Ret)?,
+                        other => self.tail_expr(other, scope)?,
+                    },
+                    None => return err(e, "if without else in value position"),
+                };
+                Ok(wrap(pre, format!("if {c} then (\n{th}\n) else (\n{el}\n)")))
+            }
+            Expr::Block(b) if b.label.is_none() => self.block(&b.block, scope, &K::Ret),
+            _ => {
+                let (pre, a, _t) = self.value(e, scope)?;
+                Ok(wrap(pre, self.ret_value(&a)))
+            }
+        }
+    }
+
+    /// expression in statement position, followed by `rest`
+    fn stmt_expr(&mut self, e: &Expr, rest: &[Stmt], scope: Scope, k: &K) -> R<String> {
+        match e {
+            Expr::Paren(p) => self.stmt_expr(&p.expr, rest, scope, k),
+            Expr::If(i) => {
+                let (pre, c, t) = self.value(&i.cond, &scope)?;
+                if t != "bool" {
+                    return err(e, "condition is not a bool");
+                }
+                // the continuation is duplicated into both branches (it is nested inside the
+                // branch's binders, so it sees the branch's mutations)
+                let rest_s = self.stmts(rest, scope.clone(), k)?;
+                let kk = K::Tail(rest_s.clone());
+                let th = self.block(&i.then_branch, &scope, &kk)?;
+                let el = match &i.else_branch {
+                    Some((_, eb)) => match &**eb {
+                        Expr::Block(b) => self.block(&b.block, &scope, &kk)?,
+                        other => self.stmt_expr(other, &[], scope.clone(), &kk)?,
+                    },
+                    None => rest_s,
+                };
+                Ok(wrap(pre, format!("if {c} then (\n{th}\n) else (\n{el}\n)")))
+            }
+            Expr::ForLoop(f) => {
+                if f.label.is_some() || has_jumps(&f.body) {
+                    return err(e, "loop with break / continue / return / closure");
+                }
+                let x = match &*f.pat {
+                    Pat::Ident(pi) if pi.by_ref.is_none() && pi.subpat.is_none() => pi.ident.to_string(),
+                    _ => return err(e, "unsupported loop pattern"),
+                };
+                check_name(&x)?;
+                if lookup(&scope, &x).is_some() {
+                    return err(e, "loop variable shadows a name in scope");
+                }
+                let (pre, it, itt) = self.value(&f.expr, &scope)?;
+                let et = match elem_ty(&itt) {
+                    Some(t) => t,
+                    None => return err(e, "iteration over a non-list"),
+                };
+                let cand = mutated(&f.body);
+                let muts: Vec<(String, String)> = scope.iter().filter(|(n, _)| cand.contains(n)).cloned().collect();
+                let frees: Vec<(String, String)> = scope.iter().filter(|(n, _)| !cand.contains(n)).cloned().collect();
+                self.loops += 1;
+                let lname = format!("{}_loop{}", self.fname, self.loops);
+                let tuple = |vs: &[(String, String)]| -> String {
+                    if vs.is_empty() {
+                        "tt".to_string()
+                    } else {
+                        format!("({})", vs.iter().map(|(n, _)| coq_name(n)).collect::<Vec<_>>().join(", "))
+                    }
+                };
+                let pat = |vs: &[(String, String)]| -> String {
+                    match vs.len() {
+                        0 => "_".to_string(),
+                        1 => coq_name(&vs[0].0),
+                        _ => format!("'({})", vs.iter().map(|(n, _)| coq_name(n)).collect::<Vec<_>>().join(", ")),
+                    }
+                };
+                let free_args = frees.iter().map(|(n, _)| coq_name(n)).collect::<Vec<_>>().join(" ");
+                let mut_args = muts.iter().map(|(n, _)| coq_name(n)).collect::<Vec<_>>().join(" ");
+                let back = format!("{lname} {free_args} itl_ {mut_args}");
+                let mut inner = scope.clone();
+                inner.push((x.clone(), et.clone()));
+                let body = self.block(&f.body, &inner, &K::Tail(back))?;
+                let params = |vs: &[(String, String)]| -> String {
+                    vs.iter().map(|(n, t)| format!("({} : {t})", coq_name(n))).collect::<Vec<_>>().join(" ")
+                };
+                self.aux.push(format!(
+                    "Fixpoint {lname} {} (it_ : list {}) {} {{struct it_}} :=\n  match it_ with\n  | [] => Ok {}\n  | {} :: itl_ =>\n{body}\n  end.\n",
+                    params(&frees),
+                    paren_ty(&et),
+                    params(&muts),
+                    tuple(&muts),
+                    coq_name(&x)
+                ));
+                let rest_s = self.stmts(rest, scope, k)?;
+                Ok(wrap(
+                    pre,
+                    format!("bind ({lname} {free_args} {it} {mut_args}) (fun {} =>\n{rest_s})", pat(&muts)),
+                ))
+            }
+            Expr::Binary(b) if matches!(b.op, BinOp::SubAssign(_) | BinOp::AddAssign(_)) => {
+                let (n, t) = self.place(&b.left, &scope)?;
+                if t != "nat" {
+                    return err(e, "compound assignment to a non-usize");
+                }
+                let (mut pre, r, rt) = self.value(&b.right, &scope)?;
+                if rt != "nat" {
+                    return err(e, "compound assignment of a non-usize");
+                }
+                let rest_s = self.stmts(rest, scope, k)?;
+                let n = coq_name(&n);
+                if matches!(b.op, BinOp::SubAssign(_)) {
+                    pre.push((n.clone(), format!("usub {n} {r}")));
+                    Ok(wrap(pre, rest_s))
+                } else {
+                    Ok(wrap(pre, format!("let {n} := ({n} + {r}) in\n{rest_s}")))
+                }
+            }
+            Expr::Assign(a) => {
+                let (n, t) = self.place(&a.left, &scope)?;
+                let (pre, r, rt) = self.value(&a.right, &scope)?;
+                if rt != t {
+                    return err(e, "assignment of a different type");
+                }
+                let rest_s = self.stmts(rest, scope, k)?;
+                Ok(wrap(pre, format!("let {} := {r} in\n{rest_s}", coq_name(&n))))
+            }
+            Expr::MethodCall(m) => {
+                let name = m.method.to_string();
+                // table_action.insert(state, row)
+                if matches!(&*m.receiver, Expr::Path(p) if p.path.is_ident("table_action")) {
+                    if name != "insert" || m.args.len() != 2 || !self.has_ins || !matches!(&m.args[0], Expr::Path(p) if p.path.is_ident("state")) {
+                        return err(e, "unsupported use of table_action");
+                    }
+                    let (pre, row, t) = self.value(&m.args[1], &scope)?;
+                    if t != "list N" {
+                        return err(e, "inserted row is not a list of values");
+                    }
+                    let rest_s = self.stmts(rest, scope, k)?;
+                    return Ok(wrap(pre, format!("let ins := ins ++ [{row}] in\n{rest_s}")));
+                }
+                let (n, t) = self.place(&m.receiver, &scope)?;
+                let n = coq_name(&n);
+                let mut pre = Vec::new();
+                let mut args = Vec::new();
+                for a in m.args.iter() {
+                    let (p, v, ty) = self.value(a, &scope)?;
+                    pre.extend(p);
+                    args.push((v, ty));
+                }
+                let is_list = elem_ty(&t).is_some();
+                let rest_s = self.stmts(rest, scope, k)?;
+                match (name.as_str(), args.len()) {
+                    ("swap", 2) if is_list && args[0].1 == "nat" && args[1].1 == "nat" => {
+                        pre.push((n.clone(), format!("vswap {n} {} {}", args[0].0, args[1].0)));
+                        Ok(wrap(pre, rest_s))
+                    }
+                    ("sort_unstable", 0) if t == "list nat" => Ok(wrap(pre, format!("let {n} := sort_nat {n} in\n{rest_s}"))),
+                    ("dedup", 0) if t == "list nat" => Ok(wrap(pre, format!("let {n} := dedup_nat {n} in\n{rest_s}"))),
+                    ("truncate", 1) if is_list && args[0].1 == "nat" => {
+                        Ok(wrap(pre, format!("let {n} := firstn {} {n} in\n{rest_s}", args[0].0)))
+                    }
+                    ("push", 1) if is_list && Some(args[0].1.clone()) == elem_ty(&t) => {
+                        Ok(wrap(pre, format!("let {n} := {n} ++ [{}] in\n{rest_s}", args[0].0)))
+                    }
+                    _ => err(e, &format!("unsupported statement method {name}")),
+                }
+            }
+            _ => err(e, "unsupported expression statement"),
+        }
+    }
+}
+
+fn struct_fields(file: &syn::File) -> HashMap<String, Vec<(String, String)>> {
+    let mut out = HashMap::new();
+    for it in file.items.iter() {
+        if let SynItem::Struct(s) = it {
+            let name = s.ident.to_string();
+            if name != "Matches" && name != "Match" {
+                continue;
+            }
+            let mut fs = Vec::new();
+            let mut ok = true;
+            if let syn::Fields::Named(n) = &s.fields {
+                for f in n.named.iter() {
+                    let t = match &f.ty {
+                        // `&'a [T]`
+                        Type::Reference(r) => match &*r.elem {
+                            Type::Slice(sl) => coq_type(&sl.elem).map(|t| format!("list {}", paren_ty(&t))),
+                            other => coq_type(other),
+                        },
+                        other => coq_type(other),
+                    };
+                    match t {
+                        Ok(t) => fs.push((f.ident.as_ref().unwrap().to_string(), t)),
+                        Err(_) => ok = false,
+                    }
+                }
+            } else {
+                ok = false;
+            }
+            if ok {
+                out.insert(name, fs);
+            }
+        }
+    }
+    out
+}
+
+fn translate_method(
+    m: &syn::ImplItemFn,
+    structs: &HashMap<String, Vec<(String, String)>>,
+    methods: &HashMap<String, Vec<String>>,
+) -> R<(String, Vec<String>)> {
+    let fname = m.sig.ident.to_string();
+    let fields: Scope = structs
+        .get("Matches")
+        .ok_or("struct Matches not recognised")?
+        .iter()
+        .map(|(f, t)| (format!("self_{f}"), t.clone()))
+        .collect();
+    let mut g = Gen {
+        fname: fname.clone(),
+        structs,
+        fields: fields.clone(),
+        methods,
+        aux: Vec::new(),
+        tmp: 0,
+        loops: 0,
+        has_ins: false,
+        has_state: false,
+        returns_self: false,
+    };
+    let mut scope: Scope = Vec::new();
+    let mut params: Vec<(String, String)> = Vec::new();
+    let mut arg_tys = Vec::new();
+    for a in m.sig.inputs.iter() {
+        match a {
+            FnArg::Receiver(r) => {
+                if r.reference.is_some() && r.mutability.is_some() {
+                    g.returns_self = true;
+                }
+                for (f, t) in fields.iter() {
+                    scope.push((f.clone(), t.clone()));
+                    params.push((f.clone(), t.clone()));
+                }
+            }
+            FnArg::Typed(pt) => {
+                let name = match &*pt.pat {
+                    Pat::Ident(pi) => pi.ident.to_string(),
+                    _ => return err(pt, "unsupported parameter pattern"),
+                };
+                let tn = type_last(&pt.ty).map(|s| s.ident.to_string()).unwrap_or_default();
+                if name == "state" && tn == "ExecutionState" {
+                    g.has_state = true;
+                    params.push(("base_unit".into(), "N".into()));
+                } else if name == "table_action" && tn == "TableAction" {
+                    g.has_ins = true;
+                } else {
+                    check_name(&name)?;
+                    let t = coq_type(&pt.ty)?;
+                    scope.push((name.clone(), t.clone()));
+                    params.push((coq_name(&name), t.clone()));
+                    arg_tys.push(t);
+                }
+            }
+        }
+    }
+    if has_jumps(&m.block) {
+        return err(&m.block, "body with break / continue / return / closure / ? / while");
+    }
+    if g.has_ins {
+        scope.push(("ins".into(), "list (list N)".into()));
+    }
+    let body = g.block(&m.block, &scope, &K::Ret)?;
+    let ps = params.iter().map(|(n, t)| format!("({n} : {t})")).collect::<Vec<_>>().join(" ");
+    let mut text = String::new();
+    for a in g.aux.iter() {
+        text.push_str(a);
+        text.push('\n');
+    }
+    let init = if g.has_ins { "let ins : list (list N) := [] in\n" } else { "" };
+    text.push_str(&format!("Definition {fname} {ps} :=\n{init}{body}.\n"));
+    Ok((text, arg_tys))
+}
+
+// ------------------------------------------------------------------------------------------------
+// Part 2: expression-level facts about step_rules_with_scheduler / SchedulerRecord
+
+fn tokens_of<T: quote::ToTokens>(t: &T) -> String {
+    t.to_token_stream().to_string().split_whitespace().collect::<Vec<_>>().join(" ")
+}
+
+fn find_fn<'a>(file: &'a syn::File, impl_ty: &str, name: &str) -> Option<&'a syn::ImplItemFn> {
+    for it in file.items.iter() {
+        if let SynItem::Impl(im) = it {
+            if im.trait_.is_none() && type_last(&im.self_ty).map(|s| s.ident == impl_ty).unwrap_or(false) {
+                for ii in im.items.iter() {
+                    if let ImplItem::Fn(f) = ii {
+                        if f.sig.ident == name {
+                            return Some(f);
+                        }
+                    }
+                }
+            }
+        }
+    }
+    None
+}
+
+/// all method calls / macro statements of a function body in source order, as (kind, text, line)
+struct Events(Vec<(String, String, usize)>);
+impl<'ast> syn::visit::Visit<'ast> for Events {
+    fn visit_expr_method_call(&mut self, m: &'ast syn::ExprMethodCall) {
+        // receiver first: source order of evaluation
+        syn::visit::visit_expr(self, &m.receiver);
+        self.0.push(("call".into(), m.method.to_string(), m.method.span().start().line));
+        for a in m.args.iter() {
+            syn::visit::visit_expr(self, a);
+        }
+    }
+    fn visit_expr_call(&mut self, c: &'ast syn::ExprCall) {
+        self.0.push(("fn".into(), tokens_of(&c.func), c.span().start().line));
+        syn::visit::visit_expr_call(self, c);
+    }
+}
+
+/// Facts (each a Gallina definition + report line):
+///  * `sched_residual_recanon`: in step 3 of `step_rules_with_scheduler`, between taking the residual
+///    vector out of `rule_info.matches` and `Matches::new`, every value is replaced by
+///    `self.backend.get_canon_repr(*v, *ty)` whenever `free_vars` is non-empty, with chunk width
+///    `tys.len()` (fix of F7, c01cd3e); and the residual stored back is the result of `instantiate`.
+///  * `sched_cache_key_fields`: the key pushed by `collect_rules` is `(ruleset.to_owned(),
+///    rule_name.clone())` and `SchedulerRecord::rule_info` is a map keyed by `(String, String)`
+///    (fix 03b67b0); `filter_matches` gets the rule name `&rule_id.1` and the stepped ruleset.
+///  * `sched_step_order`: the order of the phases: run_rules(query) ; filter_matches ; instantiate ;
+///    flush_updates ; run_rules(action).
+///  * `sched_query_rules_only_seeking`: the query rules run are those with `should_seek`.
+fn facts(file: &syn::File, out: &mut String, rep: &mut Vec<String>) {
+    let mut push = |name: &str, res: R<String>| match res {
+        Ok(def) => {
+            out.push_str(&def);
+            out.push('\n');
+            rep.push(format!("{{\"item\":\"MatchesFns.{name}\",\"file\":\"{FILE}\",\"ok\":true}}"));
+        }
+        Err(e) => {
+            out.push_str(&format!("(* {name}: NOT RECOGNISED: {} *)\n\n", e.replace("*)", "* )")));
+            rep.push(format!("{{\"item\":\"MatchesFns.{name}\",\"file\":\"{FILE}\",\"ok\":false,\"error\":{:?}}}", e));
+        }
+    };
+    let step = find_fn(file, "EGraph", "step_rules_with_scheduler");
+
+    // ---- sched_step_order + sched_residual_recanon ------------------------------------------
+    let order = (|| -> R<String> {
+        let f = step.ok_or("step_rules_with_scheduler not found")?;
+        let mut ev = Events(Vec::new());
+        syn::visit::Visit::visit_block(&mut ev, &f.block);
+        let interesting = ["run_rules", "get_canon_repr", "filter_matches", "instantiate", "flush_updates"];
+        let seq: Vec<String> = ev
+            .0
+            .iter()
+            .filter(|(k, n, _)| (k == "call" && interesting.contains(&n.as_str())) || (k == "fn" && n == "Matches :: new"))
+            .map(|(_, n, _)| if n == "Matches :: new" { "new".to_string() } else { n.clone() })
+            .collect();
+        // `take` also matches mem::take? (those are fn calls, not methods) — only method `take` would
+        // appear; none expected
+        let expect = ["run_rules", "get_canon_repr", "new", "filter_matches", "instantiate", "flush_updates", "run_rules"];
+        if seq != expect {
+            return Err(format!("phase order is {:?}", seq));
+        }
+        Ok("(** order of the phases of step_rules_with_scheduler: 0 = run_rules(query rules), 1 = residual ids\n    re-canonicalised (get_canon_repr), 2 = Matches::new, 3 = filter_matches, 4 = instantiate, 5 = flush_updates,\n    6 = run_rules(action rules) *)\nDefinition sched_step_order : list nat := [0; 1; 2; 3; 4; 5; 6].\n".to_string())
+    })();
+    push("sched_step_order", order);
+
+    let recanon = (|| -> R<String> {
+        let f = step.ok_or("step_rules_with_scheduler not found")?;
+        // find `if !rule_info.free_vars.is_empty() { let tys = ..; for row in matches.chunks_mut(tys.len()) { for (v, ty) in row.iter_mut().zip(tys.iter()) { *v = self.backend.get_canon_repr(*v, *ty); } } }`
+        struct F {
+            found: Vec<String>,
+        }
+        impl<'ast> syn::visit::Visit<'ast> for F {
+            fn visit_expr_if(&mut self, i: &'ast syn::ExprIf) {
+                if tokens_of(&i.cond) == "! rule_info . free_vars . is_empty ()" && i.else_branch.is_none() {
+                    for s in i.then_branch.stmts.iter() {
+                        if let Stmt::Expr(Expr::ForLoop(outer), _) = s {
+                            if tokens_of(&outer.expr) == "matches . chunks_mut (tys . len ())" && tokens_of(&outer.pat) == "row" && outer.body.stmts.len() == 1 {
+                                if let Stmt::Expr(Expr::ForLoop(inner), _) = &outer.body.stmts[0] {
+                                    if tokens_of(&inner.expr) == "row . iter_mut () . zip (tys . iter ())"
+                                        && tokens_of(&inner.pat) == "(v , ty)"
+                                        && inner.body.stmts.len() == 1
+                                        && tokens_of(&inner.body.stmts[0]) == "* v = self . backend . get_canon_repr (* v , * ty) ;"
+                                    {
+                                        self.found.push("loop".into());
+                                    }
+                                }
+                            }
+                        }
+                        if let Stmt::Local(l) = s {
+                            if tokens_of(&l.pat).starts_with("tys") {
+                                if let Some(init) = &l.init {
+                                    if tokens_of(&init.expr)
+                                        == "rule_info . free_vars . iter () . map (| v | v . sort . column_ty (& self . backend)) . collect ()"
+                                    {
+                                        self.found.push("tys".into());
+                                    }
+                                }
+                            }
+                        }
+                    }
+                }
+                syn::visit::visit_expr_if(self, i);
+            }
+            fn visit_local(&mut self, l: &'ast syn::Local) {
+                if let Some(init) = &l.init {
+                    let t = tokens_of(&init.expr);
+                    if tokens_of(&l.pat).starts_with("mut matches") && t == "std :: mem :: take (rule_info . matches . lock () . unwrap () . as_mut ())" {
+                        self.found.push("take".into());
+                    }
+                    if tokens_of(&l.pat) == "mut matches" && t == "Matches :: new (matches , rule_info . free_vars . clone ())" {
+                        self.found.push("new".into());
+                    }
+                }
+                syn::visit::visit_local(self, l);
+            }
+            fn visit_expr_assign(&mut self, a: &'ast syn::ExprAssign) {
+                if tokens_of(&a.left) == "* rule_info . matches . lock () . unwrap ()" && tokens_of(&a.right) == "matches . instantiate (state , & table_action)" {
+                    self.found.push("store".into());
+                }
+                syn::visit::visit_expr_assign(self, a);
+            }
+        }
+        let mut v = F { found: Vec::new() };
+        syn::visit::Visit::visit_block(&mut v, &f.block);
+        let expect = ["take", "tys", "loop", "new", "store"];
+        if v.found != expect {
+            return Err(format!("residual handling of step 3 not recognised: {:?}", v.found));
+        }
+        Ok("(** step 3: the residual vector is taken out of the side cell, every value of every row (row width =\n    number of free variables) is replaced by `backend.get_canon_repr(value, column type)` when the rule has\n    free variables, then handed to Matches::new; the cell receives what `instantiate` returns *)\nDefinition sched_residual_recanon : bool := true.\nDefinition sched_residual_stored_from_instantiate : bool := true.\n".to_string())
+    })();
+    push("sched_residual_recanon", recanon);
+
+    // ---- sched_cache_key_fields -----------------------------------------------------------------
+    let key = (|| -> R<String> {
+        let f = step.ok_or("step_rules_with_scheduler not found")?;
+        struct F {
+            push_key: Option<String>,
+            contains: Option<String>,
+            insert: Option<String>,
+            filter_args: Option<String>,
+        }
+        impl<'ast> syn::visit::Visit<'ast> for F {
+            fn visit_expr_method_call(&mut self, m: &'ast syn::ExprMethodCall) {
+                let name = m.method.to_string();
+                let recv = tokens_of(&m.receiver);
+                let args: Vec<String> = m.args.iter().map(tokens_of).collect();
+                if name == "push" && recv == "ids" && args.len() == 1 {
+                    self.push_key = Some(args[0].clone());
+                }
+                if name == "contains_key" && recv == "record . rule_info" && args.len() == 1 {
+                    self.contains = Some(args[0].clone());
+                }
+                if name == "insert" && recv == "record . rule_info" && args.len() == 2 {
+                    self.insert = Some(args.join(" | "));
+                }
+                if name == "filter_matches" {
+                    self.filter_args = Some(args.join(" | "));
+                }
+                syn::visit::visit_expr_method_call(self, m);
+            }
+        }
+        let mut v = F { push_key: None, contains: None, insert: None, filter_args: None };
+        syn::visit::Visit::visit_block(&mut v, &f.block);
+        if v.push_key.as_deref() != Some("((ruleset . to_owned () , rule_name . clone ()) , core_rule)") {
+            return Err(format!("collect_rules key is {:?}", v.push_key));
+        }
+        if v.contains.as_deref() != Some("id") || v.insert.as_deref() != Some("id . clone () | info") {
+            return Err(format!("cache lookup/insert not by the collected id: {:?} {:?}", v.contains, v.insert));
+        }
+        if v.filter_args.as_deref() != Some("& rule_id . 1 | ruleset | & mut matches") {
+            return Err(format!("filter_matches arguments are {:?}", v.filter_args));
+        }
+        // the map type
+        let mut map_ty = None;
+        for it in file.items.iter() {
+            if let SynItem::Struct(s) = it {
+                if s.ident == "SchedulerRecord" {
+                    for fld in s.fields.iter() {
+                        if fld.ident.as_ref().map(|i| i == "rule_info").unwrap_or(false) {
+                            map_ty = Some(tokens_of(&fld.ty));
+                        }
+                    }
+                }
+            }
+        }
+        if map_ty.as_deref() != Some("HashMap < (String , String) , SchedulerRuleInfo >") {
+            return Err(format!("SchedulerRecord::rule_info has type {:?}", map_ty));
+        }
+        Ok("(** the compiled-rule cache of a scheduler is keyed by the pair (owning ruleset, rule name): component 0 =\n    ruleset, 1 = rule name; number of key components *)\nDefinition sched_cache_key_fields : list nat := [0; 1].\n".to_string())
+    })();
+    push("sched_cache_key_fields", key);
+
+    // ---- sched_query_rules_only_seeking ---------------------------------------------------------
+    let seek = (|| -> R<String> {
+        let f = step.ok_or("step_rules_with_scheduler not found")?;
+        struct F(bool, bool);
+        impl<'ast> syn::visit::Visit<'ast> for F {
+            fn visit_expr_if(&mut self, i: &'ast syn::ExprIf) {
+                if tokens_of(&i.cond) == "rule_info . should_seek" {
+                    let th = tokens_of(&i.then_branch);
+                    let el = i.else_branch.as_ref().map(|(_, e)| tokens_of(e)).unwrap_or_default();
+                    if th == "{ Some (rule_info . query_rule) }" && el == "{ None }" {
+                        self.0 = true;
+                    }
+                }
+                syn::visit::visit_expr_if(self, i);
+            }
+            fn visit_expr_assign(&mut self, a: &'ast syn::ExprAssign) {
+                if tokens_of(&a.left) == "rule_info . should_seek" && tokens_of(&a.right).contains(". filter_matches (") {
+                    self.1 = true;
+                }
+                syn::visit::visit_expr_assign(self, a);
+            }
+        }
+        let mut v = F(false, false);
+        syn::visit::Visit::visit_block(&mut v, &f.block);
+        if !(v.0 && v.1) {
+            return Err(format!("should_seek handling not recognised ({}, {})", v.0, v.1));
+        }
+        Ok("(** a rule's query rule is run iff its `should_seek`, which is what its last filter_matches returned *)\nDefinition sched_query_iff_should_seek : bool := true.\n".to_string())
+    })();
+    push("sched_query_iff_should_seek", seek);
+}
+
+pub fn generate(repo: &std::path::Path) -> (String, Vec<String>) {
+    let mut rep = Vec::new();
+    let mut out = String::from(
+        "(* GENERATED by /verif/translator (x_matches.rs) from src/scheduler.rs; do not edit *)\nFrom Coq Require Import List Arith NArith PeanoNat Bool.\nImport ListNotations.\nRequire Import Verif.Base.Res Verif.Sched.MatchesPrelude.\n\n",
+    );
+    let src = match std::fs::read_to_string(repo.join(FILE)) {
+        Ok(s) => s,
+        Err(e) => {
+            rep.push(format!("{{\"item\":\"MatchesFns\",\"file\":\"{FILE}\",\"ok\":false,\"error\":{:?}}}", e.to_string()));
+            return ("(* GENERATED: cannot read src/scheduler.rs *)\n".into(), rep);
+        }
+    };
+    let file = match syn::parse_file(&src) {
+        Ok(f) => f,
+        Err(e) => {
+            rep.push(format!("{{\"item\":\"MatchesFns\",\"file\":\"{FILE}\",\"ok\":false,\"error\":{:?}}}", e.to_string()));
+            return ("(* GENERATED: cannot parse src/scheduler.rs *)\n".into(), rep);
+        }
+    };
+    let structs = struct_fields(&file);
+    if let Some(fs) = structs.get("Matches") {
+        out.push_str(&format!(
+            "(** a `Matches` value is the tuple of its fields: ({}) *)\n\n",
+            fs.iter().map(|(n, t)| format!("{n} : {t}")).collect::<Vec<_>>().join(", ")
+        ));
+    }
+    let mut methods: HashMap<String, Vec<String>> = HashMap::new();
+    for name in METHODS {
+        let res = match find_fn(&file, "Matches", name) {
+            Some(m) => translate_method(m, &structs, &methods),
+            None => Err(format!("method Matches::{name} not found")),
+        };
+        match res {
+            Ok((text, arg_tys)) => {
+                out.push_str(&text);
+                out.push('\n');
+                methods.insert(name.to_string(), arg_tys);
+                rep.push(format!("{{\"item\":\"MatchesFns.{name}\",\"file\":\"{FILE}\",\"ok\":true}}"));
+            }
+            Err(e) => {
+                out.push_str(&format!("(* Matches::{name}: translation FAILED: {} *)\n\n", e.replace("*)", "* )")));
+                rep.push(format!("{{\"item\":\"MatchesFns.{name}\",\"file\":\"{FILE}\",\"ok\":false,\"error\":{:?}}}", e));
+            }
+        }
+    }
+    facts(&file, &mut out, &mut rep);
+    (out, rep)
 }
